@@ -968,7 +968,7 @@ unsafe impl<B: BufMut> BufMut for LimitedBuf<B> {
     unsafe fn parts_mut(&mut self) -> (*mut u8, u32) {
         // SAFETY: reposibilities lie with the caller.
         let (ptr, len) = unsafe { self.buf.parts_mut() };
-        (ptr, min(len, self.limit as u32))
+        (ptr, min(len as usize, self.limit) as u32)
     }
 
     unsafe fn set_init(&mut self, n: usize) {
@@ -978,7 +978,7 @@ unsafe impl<B: BufMut> BufMut for LimitedBuf<B> {
     }
 
     fn spare_capacity(&self) -> u32 {
-        min(self.buf.spare_capacity(), self.limit as u32)
+        min(self.buf.spare_capacity() as usize, self.limit) as u32
     }
 
     fn has_spare_capacity(&self) -> bool {
@@ -1011,7 +1011,7 @@ unsafe impl<B: BufMutSlice<N>, const N: usize> BufMutSlice<N> for LimitedBuf<B> 
     }
 
     fn total_spare_capacity(&self) -> u32 {
-        min(self.buf.total_spare_capacity(), self.limit as u32)
+        min(self.buf.total_spare_capacity() as usize, self.limit) as u32
     }
 
     fn has_spare_capacity(&self) -> bool {
@@ -1023,7 +1023,7 @@ unsafe impl<B: Buf> Buf for LimitedBuf<B> {
     unsafe fn parts(&self) -> (*const u8, u32) {
         // SAFETY: reposibilities lie with the caller.
         let (ptr, len) = unsafe { self.buf.parts() };
-        (ptr, min(len, self.limit as u32))
+        (ptr, min(len as usize, self.limit) as u32)
     }
 
     fn len(&self) -> usize {
